@@ -93,6 +93,7 @@ type State struct {
 	jG        []G
 	jCovered  []string
 	jPreempts int
+	asn1Memo  []asn1Memo
 }
 
 type heapUndo struct {
@@ -249,6 +250,7 @@ func (st *State) clone() *State {
 	n.hashVars = append([]*Term(nil), st.hashVars...)
 	n.shaApps = append([]shaApp(nil), st.shaApps...)
 	n.fhashApps = append([]fhashApp(nil), st.fhashApps...)
+	n.asn1Memo = append([]asn1Memo(nil), st.asn1Memo...)
 	return n
 }
 
